@@ -91,30 +91,22 @@ Definition NewFileHeader (sections : list bytes) (is_dir : bool) : file_header :
   mk_fh ((len p + 2) mod 65536) (if is_dir then 1 else 0) p.
 Definition impl_bytes_fh (h : file_header) : bytes := be16 (fh_size h) ++ be16 (fh_type h) ++ fh_path h.
 
-(* FilePath.Write: bufio.Scanner + fileItemScanner; Scan()'s result is ignored, so after an item whose
-   declared length runs past the data the scanner is stuck (ErrAdvanceTooFar) and Bytes() keeps returning
-   the previous token; at clean EOF the token is empty.  FilePathItem.Write: Err when the token < 3 bytes. *)
+(* FilePath.Write (as repaired): bufio.Scanner + fileItemScanner; an item whose declared length runs past the data,
+   or fewer than 3 bytes left, makes Scan() fail and the path is rejected.  The [prev]/[stuck] arguments are
+   kept for the statement of the round-trip lemma only (the pinned tree ignored Scan()'s result and re-used the
+   previous token for every missing item). *)
 Fixpoint path_items (n : nat) (rest : bytes) (prev : option bytes) (stuck : bool) : res (list bytes) :=
   match n with
   | O => Ok []
   | S k =>
-      if stuck then
-        match prev with
-        | None => Err
-        | Some nm => match path_items k rest prev true with Ok l => Ok (nm :: l) | e => e end
-        end
-      else match rest with
-           | _ :: _ :: l :: body =>
-               if l <=? len body then
-                 let nm := takeN l body in
-                 match path_items k (dropN l body) (Some nm) false with Ok r => Ok (nm :: r) | e => e end
-               else (* advance too far: stuck with the previous token *)
-                 match prev with
-                 | None => Err
-                 | Some nm => match path_items k rest prev true with Ok r => Ok (nm :: r) | e => e end
-                 end
-           | _ => Err    (* fewer than 3 bytes left: empty token *)
-           end
+      match rest with
+      | _ :: _ :: l :: body =>
+          if l <=? len body then
+            let nm := takeN l body in
+            match path_items k (dropN l body) (Some nm) false with Ok r => Ok (nm :: r) | e => e end
+          else Err
+      | _ => Err
+      end
   end.
 Definition impl_dec_path (b : bytes) : res (N * list bytes) :=
   match b with
